@@ -1,5 +1,5 @@
 (** C09 — executable instantiation of the [estimate] model used by the correspondence (T2, [vm_compute]) and by the
-    refutation witness: IDs are strings (IndividualParameters only accepts string IDs) ordered like Python orders
+    witnesses: IDs are strings (IndividualParameters only accepts string IDs) ordered like Python orders
     ASCII strings, ages are exact rationals (every float is a dyadic rational; the harness writes reduced fractions, so
     structural equality is numeric equality), a row is the list of feature values.  Definitions only. *)
 From Coq Require Import List Bool String QArith ZArith.
@@ -20,12 +20,19 @@ Definition row_eqb : row -> row -> bool := all2 Qeqb.
 Definition opt_row_eqb (a b : option row) : bool :=
   match a, b with Some x, Some y => row_eqb x y | None, None => true | _, _ => false end.
 
-(** one recorded call of [compute_individual_trajectory]: (ID, ages passed, rows returned) *)
-Definition call := (string * list Q * list row)%type.
+Definition ages_eqb (a b : ages Q) : bool :=
+  match a, b with
+  | One x, One y => Qeqb x y
+  | Many xs, Many ys => all2 Qeqb xs ys
+  | _, _ => false
+  end.
+
+(** one recorded call of [compute_individual_trajectory]: (ID, ages passed — a scalar or a sequence —, rows returned) *)
+Definition call := (string * ages Q * list row)%type.
 
 (** the trajectory function of a run = the table of the calls recorded on the implementation *)
-Definition traj_of_calls (cs : list call) (i : string) (ts : list Q) : list row :=
-  match find (fun c => String.eqb (fst (fst c)) i && all2 Qeqb (snd (fst c)) ts) cs with
+Definition traj_of_calls (cs : list call) (i : string) (ts : ages Q) : list row :=
+  match find (fun c => String.eqb (fst (fst c)) i && ages_eqb (snd (fst c)) ts) cs with
   | Some c => snd c
   | None => []
   end.
@@ -50,7 +57,7 @@ Definition case := (input string Q * option bool * list call * output string Q r
 
 Definition calls_agree (c : case) : bool :=
   match c with (inp, _, cs, _) =>
-    all2 (fun r cl => String.eqb (fst r) (fst (fst cl)) && all2 Qeqb (snd r) (snd (fst cl))) (calls_x inp) cs
+    all2 (fun r cl => String.eqb (fst r) (fst (fst cl)) && ages_eqb (snd r) (snd (fst cl))) (calls_x inp) cs
   end.
 
 Definition output_agrees (c : case) : bool :=
@@ -61,8 +68,9 @@ Definition check_case (c : case) : bool := calls_agree c && output_agrees c.
 (** tagging instance for witnesses: the "value" of individual i at age t is the pair (i, t) itself *)
 Definition tag (i : string) (t : Q) : string * Q := (i, t).
 Definition estimate_tag : input string Q -> option bool -> output string Q (string * Q) :=
-  estimate string Q (string * Q) String.eqb String.leb Qeqb (fun i ts => map (tag i) ts).
+  estimate string Q (string * Q) String.eqb String.leb Qeqb (fun i a => map (tag i) (atleast_1d Q a)).
 
-(** finding F8: a MultiIndex request with a repeated (ID, TIME) pair *)
+(** a MultiIndex request with a repeated (ID, TIME) pair, individuals interleaved, ages unsorted (the request of the former
+    finding F8: the code used to return 6 rows for it) *)
 Definition f8_request : index string Q :=
   [("b"%string, 75 # 1); ("a"%string, 70 # 1); ("b"%string, 71 # 1); ("b"%string, 75 # 1)].
